@@ -57,13 +57,50 @@ Theorem plain_degrades : forall w ops st f r, srun false w st f ops = Ok r -> fo
 Proof. exact plain_degrades_lemma. Qed.
 Print Assumptions plain_degrades.
 
+(* ... and what it emits is EXACTLY the appended lines: for every sequence of good markup, any indentations, any
+   undecorating formatter with an empty style stack, the stream of the run is plain_out - for every write / write_line /
+   overwrite on an existing section the visible text of its indented lines joined by line feeds (one more line feed after
+   write_line / overwrite), nothing at all for section(), indent and clear - and no call raises. *)
+Theorem plain_appended : forall w sty ops st f, pfmt_ok sty f -> good_opsb sty ops = true ->
+  exists st' f', srun false w st f ops = Ok (st', f', plain_out sty (map sc_indent st) ops) /\ pfmt_ok sty f'.
+Proof. exact plain_run_appends. Qed.
+Print Assumptions plain_appended.
+(* ... none of which is an escape byte (plain_degrades alone would let a Ch 27 through) *)
+Theorem plain_no_escape_byte : forall sty ops inds, good_opsb sty ops = true ->
+  Forall (fun e => e <> Ch ESC) (plain_out sty inds ops).
+Proof. exact plain_out_no_esc. Qed.
+Print Assumptions plain_no_escape_byte.
+
+(* output.section() hands the new section the indentation its output has at that moment (Output.section():
+   section.indent(self._indent)): in a program of calls on the output and on its sections, every section() becomes a
+   creation under the indentation set by the last output.indent(n) before it. *)
+Theorem section_takes_the_outputs_indentation : forall ind n r,
+  compile ind (PIndent n :: PSection :: r) = SCreate n :: compile n r /\
+  compile ind (PSection :: r) = SCreate ind :: compile ind r /\
+  (forall w st f, sstep w st f (SCreate n) = Ok (st ++ [new_sec n], f, []) /\ sc_indent (new_sec n) = n).
+Proof. intros ind n r. repeat split. Qed.
+Print Assumptions section_takes_the_outputs_indentation.
+
+(* A run in which a call raises (the formatter refuses a text): everything the driver tells of it - sections, formatter,
+   stream - is the complete run of the calls before the failing one, and the failing call is the one at that position. *)
+Theorem failing_run_is_told_up_to_the_failing_call : forall ansi w ops st f st' f' es j k,
+  srun_part ansi w st f ops = (st', f', es, Some (j, k)) ->
+  srun ansi w st f (firstn j ops) = Ok (st', f', es) /\
+  exists o, nth_error ops j = Some o /\ (if ansi then sstep w st' f' o else sstep_plain w st' f' o) = Err k.
+Proof. exact srun_part_err. Qed.
+Print Assumptions failing_run_is_told_up_to_the_failing_call.
+Theorem complete_run_is_told_in_full : forall ansi w ops st f st' f' es,
+  srun ansi w st f ops = Ok (st', f', es) <-> srun_part ansi w st f ops = (st', f', es, None).
+Proof. exact srun_part_ok. Qed.
+Print Assumptions complete_run_is_told_in_full.
+
 (* ---- instances ---- *)
 Definition demo_f : formatter := match new_formatter (FAnsi true) [] with Ok f => f | Err _ => {| f_kind := FAnsi true; f_styles := []; f_stack := [] |} end.
 Definition t_info : str := [60;105;110;102;111;62;49;50;51;52;53;60;47;105;110;102;111;62;54;55;56;57;48]%N.   (* <info>12345</info>67890 *)
 Definition t_inline : str := [112;60;102;103;61;114;101;100;62;113;60;47;62;114;32;97;92;60;98]%N.             (* p<fg=red>q</>r a\<b *)
 (* raw length 23 at width 10: ONE row, the screen shows 1234567890 *)
 Example c15_tagged_one_row :
-  match srun true 10 [] demo_f [SCreate; SWrite 0 t_info true] with
+  match srun true 10 [] demo_f [SCreate 0; SWrite 0 t_info true] with
   | Ok (st, _, es) => map sc_lines st = [1] /\ rows (feed 10 term_init es) = [[49;50;51;52;53;54;55;56;57;48]%N; []]
   | Err _ => False
   end.
@@ -71,18 +108,18 @@ Proof. vm_compute. split; reflexivity. Qed.
 (* the premises of screen_is_stack are satisfiable: tags, an inline style, an escaped '<', indentation, a partial clear *)
 Example c15_good_ops :
   good_opsb (f_styles demo_f)
-    [SCreate; SCreate; SIndent 0 3; SWrite 0 t_info true; SWrite 1 t_inline true; SOverwrite 0 t_inline; SClear 1 (Some 1)] = true
+    [SCreate 0; SCreate 0; SIndent 0 3; SWrite 0 t_info true; SWrite 1 t_inline true; SOverwrite 0 t_inline; SClear 1 (Some 1)] = true
   /\ is_ansi demo_f /\ f_stack demo_f = [].
 Proof. vm_compute. repeat split. Qed.
 Example c15_wrapped_partial_clear :
-  let ops := [SCreate; SCreate; SWrite 0 (repeat 97%N 25) true; SWrite 1 [98; 98]%N true; SWrite 0 [99]%N true; SClear 0 (Some 2)] in
+  let ops := [SCreate 0; SCreate 0; SWrite 0 (repeat 97%N 25) true; SWrite 1 [98; 98]%N true; SWrite 0 [99]%N true; SClear 0 (Some 2)] in
   match srun true 10 [] demo_f ops with Ok (st, _, es) => rows (feed 10 term_init es) = [[98; 98]%N; []] | Err _ => False end.
 Proof. vm_compute. reflexivity. Qed.
 (* an EMPTY line under an indentation wider than the terminal (12 at width 10) is one row: add_content, like
    Output.write, gives an empty line no blanks (before /repo c052dce it kept 12 blanks for it, counted 2 rows, and the
    clear erased "top" of the section above).  Inside the class of screen_is_stack; the screen equals the stack. *)
 Example c15_indented_empty_line_too_wide :
-  let ops := [SCreate; SCreate; SWrite 0 [116;111;112]%N true; SIndent 1 12; SWrite 1 [] true; SWrite 1 [121]%N true; SClear 1 (Some 1)] in
+  let ops := [SCreate 0; SCreate 0; SWrite 0 [116;111;112]%N true; SIndent 1 12; SWrite 1 [] true; SWrite 1 [121]%N true; SClear 1 (Some 1)] in
   match srun true 10 [] demo_f ops with
   | Ok (st, _, es) => feed 10 term_init es = screen 10 (f_styles demo_f) st
                       /\ stacked 10 (f_styles demo_f) st = [[116;111;112]%N; []]
@@ -90,3 +127,11 @@ Example c15_indented_empty_line_too_wide :
   | Err _ => False
   end.
 Proof. vm_compute. repeat split. Qed.
+
+(* plain_appended at work: an undecorated output, a section created under output.indent(2), a tagged two-line text *)
+Definition demo_p : formatter := match new_formatter FPlain [] with Ok f => f | Err _ => {| f_kind := FPlain; f_styles := []; f_stack := [] |} end.
+Example c15_plain_appended_instance :
+  let ops := compile 0 [PIndent 2; PSection; POp (SWrite 0 [60;105;110;102;111;62;97;60;47;105;110;102;111;62;10;10;99]%N true); POp (SClear 0 None)] in   (* <info>a</info> LF LF c *)
+  good_opsb (f_styles demo_p) ops = true /\ pfmt_ok (f_styles demo_p) demo_p /\
+  plain_out (f_styles demo_p) [] ops = [Ch 32; Ch 32; Ch 97; Nl; Nl; Ch 32; Ch 32; Ch 99; Nl]%N.
+Proof. vm_compute. repeat split. discriminate. Qed.
